@@ -294,6 +294,8 @@ def run(ck: Checker) -> None:
     ck.guard("R-PRESENCE", lambda: S.r_class_attr_cache(ck, "R-PRESENCE", (LNODE,)))
     ck.guard("R-WORKLIST", lambda: S.r_mutable_default(ck, "R-WORKLIST", (LNODE, LXP)))
     ck.guard("R-WORKLIST", lambda: S.r_iter_once(ck, "R-WORKLIST", (LNODE, LXP)))
+    from .c17 import r_no_memo
+    ck.guard("R-XP-SHARED", lambda: r_no_memo(ck, "R-XP-SHARED"))  # class names are resolved against the live registry on every compilation
     from .c18 import r_leg_live_links
     ck.guard("R-LEG-IDENT", lambda: r_leg_live_links(ck))  # the traversals enumerate the live children
     ck.guard("R-XP-ANYWHERE", lambda: r_legacy_match_head(ck))
